@@ -10,7 +10,9 @@ hooks_commits = [l.strip() for l in open(os.path.join(ROOT, 'props', 'hook_commi
 checks, not_app = [], []
 for pid in ids:
     p = os.path.join(ROOT, 'props', pid + '.json')
-    if os.path.exists(p) and json.load(open(p)).get('claimed', True):
+    thm = os.path.join(ROOT, 'lean', 'ElvProofs', pid + '.lean')
+    has_thm = os.path.exists(thm) and ('theorem ' + pid + '_') in open(thm).read()
+    if os.path.exists(p) and json.load(open(p)).get('claimed', True) and has_thm:
         m = json.load(open(p))
         checks.append({
             'property_id': pid,
